@@ -52,7 +52,7 @@ ObsSaneH(H) ==
                    /\ (i.tried => <<f[4], f[5]>> = TrTSlot(H, a))
 ObsSane == ObsSaneH(hash)
 
-BlankUni == [net |-> [a \in Addrs |-> "unroutable"], routable |-> [a \in Addrs |-> FALSE], self |-> [a \in Addrs |-> "none"]]
+BlankUni == [net |-> [a \in Addrs |-> "unroutable"], cls |-> [a \in Addrs |-> "unroutable"], routable |-> [a \in Addrs |-> FALSE], self |-> [a \in Addrs |-> "none"]]
 TInit == /\ l = 1 /\ uni = BlankUni /\ hash = 0 /\ now = 0
          /\ info = EmptySt.info /\ newT = {} /\ triedT = {} /\ coll = {} /\ stale = 0 /\ lastGood = 1 /\ cnt = EmptySt.cnt
          /\ nNew = 0 /\ nTried = 0 /\ nAll = 0 /\ lastAct = <<"init">> /\ lastRes = TRUE
@@ -111,7 +111,7 @@ LooseSelect(P, Q) ==
                             /\ (Line.nets # <<>> => Net(Line.res.a) \in ToSet(Line.nets))
 LooseGetAddr(P, Q) ==
   /\ Q = P /\ Len(Line.res) = Cardinality(ToSet(Line.res))
-  /\ \A a \in ToSet(Line.res) : a \in Addrs /\ P.info[a].known /\ (Line.net # "any" => Net(a) = Line.net)
+  /\ \A a \in ToSet(Line.res) : a \in Addrs /\ P.info[a].known /\ (Line.net # "any" => Cls(a) = Line.net \/ Net(a) = Line.net)
   /\ (Line.max # 0 => Len(Line.res) <= Line.max)
 
 \* the call did not match the model exactly but is structurally admissible: continue from the recorded state
